@@ -421,6 +421,7 @@ func (e *Encoder) calculateDataSize(fit *proto.FIT) error {
 	e.w = io.Discard
 
 	if err := e.encodeMessages(fit.Messages); err != nil {
+		e.n, e.w = n, w // put the destination back: the encoder may be used again.
 		return fmt.Errorf("calculate data size: %w", err)
 	}
 
@@ -639,6 +640,7 @@ func (e *Encoder) calculateDataSizeWithContext(ctx context.Context, fit *proto.F
 	e.w = io.Discard
 
 	if err := e.encodeMessagesWithContext(ctx, fit.Messages); err != nil {
+		e.n, e.w = n, w // put the destination back: the encoder may be used again.
 		return fmt.Errorf("calculate data size: %w", err)
 	}
 
